@@ -19,8 +19,16 @@ func (c *octx) twins(t *testing.T, cfg simrt.Config) *eng.Violation {
 			return v
 		}
 		tw := canonical(c.sc)
-		res, _ := execScn(t, tw, simrt.Config{Seed: cfg.Seed, Replay: true, Tape: c.res.Tape})
-		return c.sameLog("styles-differ", "constructor options only, last values", res)
+		_, tobs := execScn(t, tw, simrt.Config{Seed: cfg.Seed, Replay: true, Tape: c.res.Tape})
+		if v := c.sameCallbacks("styles-differ", "the same node configured by constructor options only (last values)", tobs); v != nil {
+			return v
+		}
+		for k, got := range c.obs.Cfg {
+			if tobs.Cfg[k] != got {
+				return c.viol("styles-differ", "node %d reports configuration %q, its canonically configured twin %q", k[0], got, tobs.Cfg[k])
+			}
+		}
+		return nil
 	case "C10":
 		flat := flatten(c.sc)
 		if flat == nil {
@@ -58,12 +66,30 @@ func (c *octx) sameCallbacks(clause, what string, other *Obs) *eng.Violation {
 	if len(other.Runs) != len(c.obs.Runs) {
 		return c.viol(clause, "%d runs here, %d with %s", len(c.obs.Runs), len(other.Runs), what)
 	}
+	// a concurrent stop-mode batch legitimately depends on the schedule (which
+	// items were stopped), and the two runs do not share scheduling points
+	loose := func(n, run int) bool {
+		if n < 0 || n >= len(c.sc.Nodes) || c.sc.Nodes[n].Kind != "batch" {
+			return false
+		}
+		cfg := c.sc.Nodes[n].configRun(run)
+		return cfg.Stop && cfg.Conc > 0
+	}
 	for i, or := range c.obs.Runs {
 		tr := other.Runs[i]
-		if d := diffSeq(projObs(or.Main, projFull, false), projObs(tr.Main, projFull, false)); d != "" {
+		p := func(kind string, n, v, a, ii int, s1, s2, s3 string) (string, bool) {
+			if kind == "post_start" && loose(n, i) {
+				s3 = "(schedule-dependent)"
+			}
+			return projFull(kind, n, v, a, ii, s1, s2, s3)
+		}
+		if d := diffSeq(projObs(or.Main, p, false), projObs(tr.Main, p, false)); d != "" {
 			return c.viol(clause, "run %d: callbacks differ from %s (shown as 'the model'): %s", i, what, d)
 		}
 		for k, lane := range or.Lanes {
+			if loose(k.N, i) {
+				continue
+			}
 			if d := diffSeq(projObs(lane, projFull, false), projObs(tr.Lanes[k], projFull, false)); d != "" {
 				return c.viol(clause, "run %d, batch item %+v: callbacks differ from %s: %s", i, k, what, d)
 			}
@@ -81,18 +107,20 @@ func (c *octx) sameCallbacks(clause, what string, other *Obs) *eng.Violation {
 // getters: last setting wins, else the documented default.
 func (c *octx) getters() *eng.Violation {
 	for id, n := range c.sc.Nodes {
-		got, ok := c.obs.Cfg[id]
-		if !ok {
-			continue
-		}
-		cfg := n.config()
-		eh := "continue"
-		if cfg.Stop {
-			eh = "stop"
-		}
-		want := fmt.Sprintf("retries=%d wait=%s conc=%d errh=%s", cfg.Retries, time.Duration(cfg.WaitMs)*time.Millisecond, cfg.Conc, eh)
-		if got != want {
-			return c.viol("getters", "node %d configured by %+v reports %q, last-setting-wins / defaults require %q", id, n.Settings, got, want)
+		for phase := 0; phase <= 1; phase++ {
+			got, ok := c.obs.Cfg[[2]int{id, phase}]
+			if !ok {
+				continue
+			}
+			cfg := n.configRun(phase)
+			eh := "continue"
+			if cfg.Stop {
+				eh = "stop"
+			}
+			want := fmt.Sprintf("retries=%d wait=%s conc=%d errh=%s", cfg.Retries, time.Duration(cfg.WaitMs)*time.Millisecond, cfg.Conc, eh)
+			if got != want {
+				return c.viol("getters", "node %d configured by %+v (then, after the first run, %+v) reports %q in phase %d, last-setting-wins / defaults require %q", id, n.Settings, n.Reconf, got, phase, want)
+			}
 		}
 	}
 	return nil
